@@ -50,6 +50,8 @@ type Contract struct {
 	SafetyTags []string
 	Schema   string // non-empty for generated schema contracts
 	Mode     string // "", "lock" (C10 lock-havoc mode)
+	NoFrame  bool   // schema S-wf/S-safe: no frame obligations
+	FrameSkip []string // component prefixes exempt from frame obligations (ghost)
 }
 
 var clauseRe = regexp.MustCompile(`^(requires|ensures|invariant|loop|modifies|let|inline|assumed|func|decreases|ghost|note|tags|safety|mode)\b(.*)$`)
